@@ -115,4 +115,9 @@ pub proof fn lemma_driver_step(v0: Seq<bool>, o0: Seq<Option<usize>>, o1: Seq<Op
     }
 }
 
+/// Every owner so far is one of the first `k` claims (so claim `k` owns nothing yet).
+pub open spec fn below(o: Seq<Option<usize>>, k: int) -> bool {
+    forall|e: int| 0 <= e < o.len() && (#[trigger] o[e]) is Some ==> o[e]->0 < k
+}
+
 } // verus!
